@@ -927,6 +927,496 @@ AIFF_SEEDS = [aiff_form([iff_chunk(b"COMM", aiff_comm()), iff_chunk(b"SSND", b"\
               aiff_form([iff_chunk(b"FORM", b"AIFF" + iff_chunk(b"COMM", aiff_comm())), iff_chunk(b"COMM", aiff_comm(ext80(16383 + 12, 8000 << 51)))])]
 
 
+# ------------------------------------------------------------------------------------------- WAVE
+def wave_impl(f):
+    """WAVE.load without the ID3 parse: WaveStreamInfo, seek(0, 0), _WaveID3._pre_load_header (ID3NoHeaderError -> tags = None)"""
+    from mutagen.wave import WaveStreamInfo, _WaveID3
+    from mutagen.id3._util import ID3NoHeaderError
+    info = WaveStreamInfo(f)
+    f.seek(0, 0)
+    try:
+        _WaveID3()._pre_load_header(f)
+        loc = f.tell()
+    except ID3NoHeaderError:
+        loc = -1
+    return info, loc
+
+
+def wave_canon(r, data):
+    i, loc = r
+    return (i.audio_format, i.channels, i.sample_rate, i.bits_per_sample, i.bitrate, fh(i._number_of_samples), fh(i.length), loc)
+
+
+def wave_expect(l, data):
+    fmt, channels, rate, bits, block_align, dsz, loc = l
+    ns = 0
+    if block_align > 0 and dsz >= 0:
+        ns = dsz / block_align
+    length = ns / rate if rate > 0 else 0.0
+    return (fmt, channels, rate, bits, channels * bits * rate, fh(ns), fh(length), loc)
+
+
+def riff_chunk(cid, body, size=None):
+    return cid + struct.pack("<I", (len(body) if size is None else size) & 0xFFFFFFFF) + body + (b"\0" if len(body) % 2 else b"")
+
+
+def wave_fmt(fmt=1, channels=2, rate=44100, byte_rate=176400, block_align=4, bits=16, ext=b""):
+    return struct.pack("<HHIIHH", fmt, channels, rate, byte_rate, block_align, bits) + ext
+
+
+def riff_form(chunks, size=None, name=b"WAVE", magic=b"RIFF"):
+    body = name + b"".join(chunks)
+    return magic + struct.pack("<I", (len(body) if size is None else size) & 0xFFFFFFFF) + body
+
+
+def wave_sweep(samples):
+    for name in sorted(n for n in samples if n.endswith(".wav"))[:4]:
+        s = samples[name][:400]
+        yield from field_sweep(s, range(0, 60))
+        yield from truncations(s, 120)
+    fmt = riff_chunk(b"fmt ", wave_fmt())
+    data = riff_chunk(b"data", b"\0" * 20)
+    tag = b"ID3\x04\x00\x00\x00\x00\x00\x0a" + b"\0" * 10
+    id3 = riff_chunk(b"id3 ", tag)
+    yield riff_form([fmt, data, id3])
+    ids = [b"fmt ", b"fmt\0", b"fmt\t", b"FMT ", b"fmt\x1c", b"fm  ", b"data", b"dat ", b"DATA", b"id3 ", b"ID3 ", b"Id3 ", b"id3\n", b"ID3\x1f", b"ID3\x80", b"id3\x7f", b"    ",
+           b"\t\n\r ", b" id3", b"~~~~", b"A\x00  ", b"RIFF", b"LIST", b"LIS ", b"list", b"\xffmt ", b"JUNK"]
+    for cid in ids:
+        for where in (0, 1, 2):
+            chunks = [fmt, data]
+            chunks.insert(where, riff_chunk(cid, tag + b"abcdef"))
+            yield riff_form(chunks + [id3])
+            yield riff_form(chunks)
+        yield riff_form([fmt, data], magic=cid)
+        yield riff_form([riff_chunk(cid, wave_fmt()), data])
+        yield riff_form([fmt, riff_chunk(cid, b"\0" * 8)])
+    # both spellings of the tag chunk, in both orders: the first 'ID3' is renamed, the first 'id3' (native or renamed) is found
+    up = riff_chunk(b"ID3 ", tag)
+    for order in ([up, id3], [id3, up], [up, up], [id3, id3], [up], [id3], []):
+        yield riff_form([fmt] + order + [data])
+        yield riff_form(order + [fmt, data])
+    sizes = [0, 1, 2, 3, 4, 5, 7, 8, 15, 16, 17, 18, 19, 20, 21, 100, 0xFFFF, 2 ** 31 - 1, 2 ** 31, 2 ** 32 - 2, 2 ** 32 - 1]
+    for sz in sizes:
+        yield riff_form([fmt, data, id3], size=sz)
+        yield riff_form([riff_chunk(b"JUNK", b"\0" * 21, sz), fmt, data, id3])
+        yield riff_form([riff_chunk(b"fmt ", wave_fmt(ext=b"\0\0"), sz), data, id3])
+        yield riff_form([fmt, riff_chunk(b"data", b"\0" * 9, sz), id3])
+        yield riff_form([fmt, data, riff_chunk(b"id3 ", tag, sz)])
+        yield riff_form([riff_chunk(b"fmt ", wave_fmt()[:min(sz, 16)]), data])
+        # nested containers: init_container again (short size: InvalidChunk ends the walk; non-ASCII name: error)
+        yield riff_form([fmt, riff_chunk(b"LIST", b"INFO" + riff_chunk(b"INAM", b"x"), sz), data, id3])
+        yield riff_form([riff_chunk(b"LIST", b"IN\xffO" + data, sz), fmt])
+        yield riff_form([fmt, riff_chunk(b"RIFF", b"WAVE" + fmt, sz), data])
+    for nm in (b"WAVE", b"wave", b"WAV ", b"AVI ", b"\0\0\0\0", b"WAV\x80", b"\xff\xff\xff\xff", b"WAV", b""):
+        yield riff_form([fmt, data, id3], name=nm)
+        yield riff_form([fmt, riff_chunk(b"LIST", nm + data), id3])
+    for nm in (b"WAV", b"WA", b""):
+        yield b"RIFF" + struct.pack("<I", 100) + nm
+    many = [riff_chunk(b"C%03d" % k, b"x" * (k % 5)) for k in range(40)]
+    yield riff_form(many + [fmt, data, id3]) ; yield riff_form(many) ; yield riff_form([fmt] + many + [id3])[:-3]
+    yield riff_form([]) ; yield riff_form([], size=4) ; yield riff_form([], size=400)
+    full = riff_form([data, fmt, up])
+    for k in range(len(full) + 1):
+        yield full[:k]
+    for v in SWEEP_VALUES:
+        if v < 2 ** 16:
+            yield riff_form([riff_chunk(b"fmt ", wave_fmt(block_align=v)), data])
+            yield riff_form([riff_chunk(b"fmt ", wave_fmt(block_align=v))])
+            yield riff_form([riff_chunk(b"fmt ", wave_fmt(channels=v, bits=v)), data])
+        yield riff_form([riff_chunk(b"fmt ", wave_fmt(rate=v)), data])
+        yield riff_form([riff_chunk(b"fmt ", wave_fmt(rate=v, block_align=0)), data])
+        yield riff_form([fmt, riff_chunk(b"data", b"\0" * 8, v)])
+
+
+WAVE_SEEDS = [riff_form([riff_chunk(b"fmt ", wave_fmt()), riff_chunk(b"data", b"\0" * 40), riff_chunk(b"id3 ", b"ID3\x04\x00\x00\x00\x00\x00\x0a" + b"\0" * 10)]),
+              riff_form([riff_chunk(b"LIST", b"INFO" + riff_chunk(b"INAM", b"title")), riff_chunk(b"fmt ", wave_fmt(ext=b"\0\0")), riff_chunk(b"ID3 ", b"ID3\x03\x00\x00\x00\x00\x00\x00"),
+                         riff_chunk(b"data", b"\0" * 7)]),
+              riff_form([riff_chunk(b"JUNK", b"\0" * 28), riff_chunk(b"fmt ", wave_fmt(3, 1, 8000, 32000, 4, 32)), riff_chunk(b"fact", b"\0" * 4), riff_chunk(b"data", b"\0" * 64)])]
+
+
+# ------------------------------------------------------------------------------------------- DSDIFF
+def dsdiff_impl(f):
+    """DSDIFF.load without the ID3 parse: _DSDIFFID3._pre_load_header (ID3NoHeaderError -> tags = None), seek(0, 0), DSDIFFInfo"""
+    from mutagen.dsdiff import _DSDIFFID3, DSDIFFInfo
+    from mutagen.id3._util import ID3NoHeaderError
+    try:
+        _DSDIFFID3()._pre_load_header(f)
+        loc = f.tell()
+    except ID3NoHeaderError:
+        loc = -1
+    f.seek(0, 0)
+    return DSDIFFInfo(f), loc
+
+
+def dsdiff_canon(r, data):
+    i, loc = r
+    return (loc, i.channels, i.sample_rate, i.compression, fh(i.length), fh(i.bitrate), type(i.bitrate).__name__)
+
+
+def dsdiff_expect(l, data):
+    loc, channels, rate, kind, a, b, c, d, has_comp = l[:9]
+    comp = bytes(l[9:]).decode("ascii") if has_comp else None
+    length, bitrate = 0, 0
+    if kind == 1:
+        sample_count = a * 8 / (channels or 1)
+        if rate != 0:
+            length = sample_count / float(rate)
+        bitrate = channels * 1 * rate
+    elif kind == 2 and a:
+        frame_count, frame_rate = b, c
+        if frame_rate:
+            length = frame_count / frame_rate
+        if frame_count:
+            bitrate = (d / frame_count) * 8 * frame_rate
+    return (loc, channels, rate, comp, fh(length), fh(bitrate), type(bitrate).__name__)
+
+
+def dff_chunk(cid, body, size=None):
+    return cid + struct.pack(">Q", (len(body) if size is None else size) & (2 ** 64 - 1)) + body + (b"\0" if len(body) % 2 else b"")
+
+
+def dff_prop(rate=2822400, channels=2, cmpr=b"DSD ", name=b"SND ", extra=(), sizes=(None, None, None)):
+    subs = [dff_chunk(b"FS  ", struct.pack(">I", rate), sizes[0]), dff_chunk(b"CHNL", struct.pack(">H", channels) + b"SLFTSRGT"[:4 * min(channels, 2)], sizes[1]),
+            dff_chunk(b"CMPR", cmpr + b"\x0enot compressed\0", sizes[2])] + list(extra)
+    return dff_chunk(b"PROP", name + b"".join(subs))
+
+
+def dff_form(chunks, size=None, name=b"DSD ", magic=b"FRM8"):
+    body = name + b"".join(chunks)
+    return magic + struct.pack(">Q", (len(body) if size is None else size) & (2 ** 64 - 1)) + body
+
+
+def dff_frte(frames=75, rate=75, size=None, pad=b""):
+    return dff_chunk(b"FRTE", struct.pack(">IH", frames, rate) + pad, size)
+
+
+DFF_BIG = [0, 1, 2, 3, 4, 5, 6, 7, 11, 12, 13, 100, 0xFFFF, 2 ** 31, 2 ** 32 - 1, 2 ** 32, 2 ** 62, 2 ** 63 - 13, 2 ** 63 - 12, 2 ** 63 - 1, 2 ** 63, 2 ** 64 - 2, 2 ** 64 - 1]
+
+
+def dsdiff_sweep(samples):
+    for name in sorted(n for n in samples if n.endswith(".dff")):
+        s = samples[name][:500]
+        yield from field_sweep(s, range(0, 110), widths=(1, 4))
+        yield from truncations(s, 160)
+    fver = dff_chunk(b"FVER", b"\x01\x05\0\0")
+    dsd = dff_chunk(b"DSD ", b"\0" * 16)
+    tag = b"ID3\x04\x00\x00\x00\x00\x00\x0a" + b"\0" * 10
+    id3 = dff_chunk(b"ID3 ", tag)
+    dst = dff_chunk(b"DST ", dff_frte() + dff_chunk(b"DSTF", b"\0" * 10))
+    yield dff_form([fver, dff_prop(), dsd, id3])
+    yield dff_form([fver, dff_prop(cmpr=b"DST "), dst, id3])
+    for v in DFF_BIG:
+        yield dff_form([fver, dff_prop(), dsd, id3], size=v)
+        yield dff_form([dff_chunk(b"JUNK", b"\0" * 5, v), dff_prop(), dsd, id3])
+        yield dff_form([dff_prop(), dff_chunk(b"DSD ", b"\0" * 8, v), id3])
+        yield dff_form([dff_prop(), dsd, dff_chunk(b"ID3 ", tag, v)])
+        for k in range(3):
+            sz = [None, None, None]
+            sz[k] = v
+            yield dff_form([dff_prop(sizes=tuple(sz)), dsd])
+        yield dff_form([dff_prop(cmpr=b"DST "), dff_chunk(b"DST ", dff_frte(size=v) + b"\0" * 8), id3])
+        yield dff_form([dff_prop(cmpr=b"DST "), dff_chunk(b"DST ", dff_frte(), v), id3])
+        yield dff_form([dff_chunk(b"PROP", b"SND " + dff_chunk(b"FS  ", b"\0\x2b\x11\0"), v), dsd])
+        # nested containers inside PROP / FRM8 / DST
+        yield dff_form([dff_prop(extra=[dff_chunk(b"PROP", b"SND ", v)]), dsd])
+        yield dff_form([dff_prop(), dff_chunk(b"FRM8", b"DS\xffD", v), dsd])
+        yield dff_form([dff_prop(cmpr=b"DST "), dff_chunk(b"DST ", dff_chunk(b"PROP", b"AB\x80C", v) + dff_frte())])
+    for cmpr in (b"DSD ", b"DST ", b"DSD\0", b"DSD\n", b"DST\x1f", b"dsd ", b"    ", b"DS\xff ", b"ABCD", b"DSDX", b" DSD", b"D\x00  "):
+        yield dff_form([dff_prop(cmpr=cmpr), dsd, dst, id3])
+        yield dff_form([dff_prop(cmpr=cmpr), dst])
+        yield dff_form([dff_prop(cmpr=cmpr)])
+    for nm in (b"SND ", b"SND\0", b"snd ", b"SND", b"\xff\xff\xff\xff", b"ABCD"):
+        yield dff_form([dff_prop(name=nm), dsd])
+        yield dff_form([dff_prop(), dsd], name=nm)
+    for ch in (0, 1, 2, 6, 0xFFFF):
+        for rate in (0, 1, 2822400, 2 ** 32 - 1):
+            yield dff_form([dff_prop(rate, ch), dff_chunk(b"DSD ", b"\0" * 8, 2 ** 40 + 7)])
+            yield dff_form([dff_prop(rate, ch, b"DST "), dst])
+    for frames in (0, 1, 75, 2 ** 32 - 1):
+        for rate in (0, 1, 75, 0xFFFF):
+            for dsz in (None, 0, 1, 30, 2 ** 63, 2 ** 64 - 1):
+                yield dff_form([dff_prop(cmpr=b"DST "), dff_chunk(b"DST ", dff_frte(frames, rate) + b"\0" * 8, dsz)])
+    for fsz in (0, 5, 6, 7, 8):
+        yield dff_form([dff_prop(cmpr=b"DST "), dff_chunk(b"DST ", dff_frte(size=fsz, pad=b"\0\0")[:12 + fsz])])
+        yield dff_form([dff_prop(cmpr=b"DST "), dff_chunk(b"DST ", dff_chunk(b"DSTF", b"\0" * 4) + dff_frte(pad=b"\0\0"))])
+    # several FS / CHNL / CMPR chunks: the last one wins; ids that differ by padding / case / control characters
+    yield dff_form([dff_prop(extra=[dff_chunk(b"FS  ", struct.pack(">I", 5644800)), dff_chunk(b"CMPR", b"DST "), dff_chunk(b"CHNL", b"\0\x05")]), dsd, dst])
+    for cid in (b"FS  ", b"FS\0\0", b"FS\t ", b"fs  ", b"CHNL", b"CHN ", b"CMPR", b"cmpr", b"PROP", b"PRO ", b"DST ", b"DST\x1c", b"DSD ", b"ID3 ", b"id3 ", b"ID3\x80", b"FRM8", b"FRTE", b"\xffRTE"):
+        yield dff_form([dff_prop(extra=[dff_chunk(cid, b"\0\0\0\x07abcd")]), dsd, id3])
+        yield dff_form([dff_chunk(cid, b"SND " + b"\0" * 8), dff_prop(), dsd, id3])
+        yield dff_form([dff_prop(cmpr=b"DST "), dff_chunk(b"DST ", dff_chunk(cid, b"\0\0\0\x07\0\x08ab") + dff_frte())])
+        yield dff_form([dff_prop(), dsd], magic=cid)
+    full = dff_form([fver, dff_prop(cmpr=b"DST "), dst, id3])
+    for k in range(len(full) + 1):
+        yield full[:k]
+    many = [dff_chunk(b"C%03d" % k, b"x" * (k % 5)) for k in range(30)]
+    yield dff_form(many + [dff_prop(extra=many), dsd, id3]) ; yield dff_form(many)
+
+
+DSDIFF_SEEDS = [dff_form([dff_chunk(b"FVER", b"\x01\x05\0\0"), dff_prop(), dff_chunk(b"DSD ", b"\0" * 32), dff_chunk(b"ID3 ", b"ID3\x04\x00\x00\x00\x00\x00\x0a" + b"\0" * 10)]),
+                dff_form([dff_chunk(b"FVER", b"\x01\x05\0\0"), dff_prop(5644800, 2, b"DST "), dff_chunk(b"DST ", dff_frte() + dff_chunk(b"DSTF", b"\0" * 20) + dff_chunk(b"DSTC", b"\0" * 4))]),
+                dff_form([dff_prop(name=b"SND ", extra=[dff_chunk(b"ABSS", b"\0" * 8), dff_chunk(b"LSCO", b"\0\0")]), dff_chunk(b"DSD ", b"\0" * 9)])]
+
+
+# ------------------------------------------------------------------------------------------- AAC
+def aac_impl(f):
+    from mutagen.aac import AACInfo
+    return AACInfo(f)
+
+
+def aac_canon(i, data):
+    return (i._type, i.sample_rate, i.channels, fh(i.bitrate), type(i.bitrate).__name__, fh(i.length))
+
+
+def aac_expect(l, data):
+    if l[0] == 0:
+        _, rate, channels, bitrate, nbytes = l
+        return ("ADIF", rate, channels, fh(bitrate), "int", fh((8.0 * nbytes) / bitrate if bitrate != 0 else 0))
+    _, freq, channels, hasf, bitrate, samples, stream_size, last8 = l
+    length = 0.0
+    if freq != 0:
+        length = float(samples * stream_size) / ((last8 / 8 - 0.0) * freq)
+    return ("ADTS", freq, channels, fh(float(bitrate) if hasf else 0), "float" if hasf else "int", fh(length))
+
+
+def adts_frame(length=32, sfi=4, chan=2, prot_absent=1, nordbif=0, id_=0, layer=0, profile=1, body=None, sync=0xFFF):
+    hdr = bitpack([(sync, 12), (id_, 1), (layer, 2), (prot_absent, 1), (profile, 2), (sfi, 4), (0, 1), (chan, 3), (0, 1), (0, 1), (0, 2), (length, 13), (0x7FF, 11), (nordbif, 2)])
+    return hdr + (b"\x21" * max(0, length - 7) if body is None else body)
+
+
+def aac_pce(sfi=4, front=1, side=0, back=0, lfe=0, assoc=0, cc=0, mixdown=(0, 0, 0), cpe=1, comment=b""):
+    f = [(0, 4), (1, 2), (sfi, 4), (front, 4), (side, 4), (back, 4), (lfe, 2), (assoc, 3), (cc, 4)]
+    for m, w in zip(mixdown, (4, 4, 3)):
+        f += [(1, 1), (5, w)] if m else [(0, 1)]
+    f += [(cpe, 1), (3, 4)] * (front + side + back) + [(1, 4)] * lfe + [(2, 4)] * assoc + [(3, 5)] * cc
+    n = sum(w for _, w in f)
+    f.append((0, (-n) % 8))
+    f.append((len(comment), 8))
+    return f + [(c, 8) for c in comment]
+
+
+def aac_adif(copyright=0, bitstream_type=0, bitrate=128000, npce=0, pces=None, pad=b"\0" * 40, offset_bits=0):
+    f = [(copyright, 1)] + ([(0xAB, 8)] * 9 if copyright else []) + [(0, 2), (bitstream_type, 1), (bitrate, 23), (npce, 4)]
+    pos = sum(w for _, w in f)
+    for k, pce in enumerate(pces if pces is not None else [aac_pce()] * (npce + 1)):
+        if bitstream_type == 0:
+            f.append((0x12345, 20)); pos += 20
+        # each PCE aligns relative to the reader start (byte 4 of the file): rebuild the alignment padding
+        fixed = [x for x in pce]
+        f += fixed
+    return b"ADIF" + bitpack(f) + pad
+
+
+def aac_sweep(samples):
+    for name in ("empty.aac", "adif.aac"):
+        s = samples[name][:300]
+        yield from field_sweep(s, range(0, 40), widths=(1, 2))
+        yield from truncations(s, 120)
+        for o in range(0, 12):
+            for v in range(0, 256, 5):
+                d = bytearray(s[:200]); d[o] = v
+                yield bytes(d)
+    fr = adts_frame()
+    yield fr * 5
+    for n in range(0, 6):
+        yield fr * n
+        yield b"\0" * 7 + fr * n + b"\xff"
+        yield fr * n + fr[:9]
+    # junk in front: the sync search window (512 bytes, 0xff bytes cost two), the ten tries
+    for k in (0, 1, 2, 255, 256, 509, 510, 511, 512, 513, 600):
+        yield b"\0" * k + fr * 4
+        yield b"\xff" * k + fr * 4
+        yield b"\xff\x00" * (k // 2) + fr * 4
+    for tries in range(0, 13):
+        yield (b"\xff\xf0" + b"\0" * 3) * tries + fr * 3
+        yield (fr + b"\0" * 11) * tries + fr * 3               # one good frame, then no resync within 10 bytes
+        yield (fr * 2 + b"\0" * 10) * tries + fr * 3
+    # frame length: below the header size, crossing the end, the largest; CRC words; resync distance
+    for length in (0, 1, 6, 7, 8, 9, 31, 32, 33, 100, 8191):
+        for prot in (0, 1):
+            for nord in (0, 1, 3):
+                f2 = adts_frame(length, prot_absent=prot, nordbif=nord)
+                yield f2 * 3
+                yield f2 * 3 + b"\0" * 9000
+                yield f2 + fr * 3
+    for gap in range(0, 14):
+        yield (fr + b"\0" * gap) * 4
+        yield (fr + b"\xff" * gap) * 4
+    # the fixed header must repeat: one differing field per frame
+    for kw in (dict(sfi=5), dict(chan=3), dict(id_=1), dict(layer=1), dict(profile=2), dict(prot_absent=0)):
+        yield fr * 2 + adts_frame(**kw) + fr * 3
+        yield adts_frame(**kw) * 4
+    for sfi in range(16):
+        for chan in range(8):
+            yield adts_frame(sfi=sfi, chan=chan) * 3
+    # an ID3v2 tag in front
+    for size in (0, 1, 10, 127, 128, 300, 0x0FFFFFFF):
+        bp = bytes(((size >> sh) & 0x7F) for sh in (21, 14, 7, 0))
+        for body in (b"\0" * min(size, 400) + fr * 4, fr * 4):
+            yield b"ID3\x04\x00\x00" + bp + body
+            yield b"ID3\x04\x00\x00" + bytes(b | 0x80 for b in bp) + body
+        yield b"ID3\x04\x00\x00" + bp + b"\0" * min(size, 400) + aac_adif()
+    for k in range(0, 12):
+        yield (b"ID3\x04\x00\x00\x00\x00\x00\x02" + b"ab" + fr * 4)[:k]
+    # ADIF: header options, program config elements
+    for cr in (0, 1):
+        for bt in (0, 1):
+            for npce in (0, 1, 2, 15):
+                yield aac_adif(cr, bt, 128000, npce)
+                yield aac_adif(cr, bt, 0, npce, pad=b"")
+                full = aac_adif(cr, bt, 1, min(npce, 2), pad=b"")
+                for cut in range(4, len(full), 3):
+                    yield full[:cut]
+    for sfi in range(16):
+        yield aac_adif(pces=[aac_pce(sfi=sfi)])
+    for front, side, back, lfe, assoc, cc in ((0, 0, 0, 0, 0, 0), (15, 15, 15, 3, 7, 15), (1, 0, 0, 1, 0, 0), (2, 1, 1, 0, 3, 2), (15, 0, 0, 0, 0, 0)):
+        for mix in ((0, 0, 0), (1, 1, 1), (1, 0, 1)):
+            for cpe in (0, 1):
+                for comment in (b"", b"hello", b"x" * 255):
+                    yield aac_adif(pces=[aac_pce(4, front, side, back, lfe, assoc, cc, mix, cpe, comment)])
+                    yield aac_adif(pces=[aac_pce(4, front, side, back, lfe, assoc, cc, mix, cpe, comment)], pad=b"")
+    yield b"ADIF" ; yield b"ADI" ; yield b"" ; yield b"ADIF\xff" * 3
+
+
+AAC_SEEDS = [adts_frame() * 6, b"\0" * 20 + adts_frame(40, 3, 2, 0, 1) * 5 + b"\xff\xf1", aac_adif(), aac_adif(1, 1, 96000, 1, [aac_pce(3, 2, 0, 1, 1, 0, 0, (1, 0, 0), 1, b"c"), aac_pce()]),
+             b"ID3\x04\x00\x00\x00\x00\x00\x05hello" + adts_frame(20, 11, 1) * 4]
+
+
+# ------------------------------------------------------------------------------------------- FLAC
+def flac_impl(f):
+    from mutagen.flac import FLAC
+    return FLAC(f)
+
+
+def flac_canon(F, data):
+    i = F.info
+    return (i.min_blocksize, i.max_blocksize, i.sample_rate, i.channels, i.bits_per_sample, i.total_samples, fh(i.length), i.bitrate,
+            len(F.tags) if F.tags is not None else -1, len(F.cuesheet.tracks) if F.cuesheet is not None else -1,
+            len(F.seektable.seekpoints) if F.seektable is not None else -1, len(F.pictures), tuple(b.code for b in F.metadata_blocks))
+
+
+def flac_expect(l, data):
+    mn, mx, rate, ch, bps, total, has, nbytes, tags, cue, seek, pics = l[:12]
+    length = total / float(rate)
+    bitrate = int(float(nbytes) * 8 / length) if has else 0
+    return (mn, mx, rate, ch, bps, total, fh(length), bitrate, tags, cue, seek, pics, tuple(l[12:]))
+
+
+def flac_block(code, body, last=False, size=None):
+    n = len(body) if size is None else size
+    return bytes([code | (0x80 if last else 0)]) + (n & 0xFFFFFF).to_bytes(3, "big") + body
+
+
+def flac_si(rate=44100, channels=2, bps=16, total=88200, mn=4096, mx=4096):
+    v = (rate << 44) | ((channels - 1) << 41) | ((bps - 1) << 36) | total
+    return struct.pack(">HH", mn, mx) + b"\0\0\x10\0\0\x20" + v.to_bytes(8, "big") + b"\x11" * 16
+
+
+def flac_vc(comments=(b"TITLE=x", b"noequals", b"=empty", b"bad\x7fkey=1"), vendor=b"ref", count=None, vlen=None):
+    d = struct.pack("<I", len(vendor) if vlen is None else vlen) + vendor + struct.pack("<I", len(comments) if count is None else count)
+    for c in comments:
+        d += (struct.pack("<I", c[0]) + c[1]) if isinstance(c, tuple) else (struct.pack("<I", len(c)) + c)
+    return d
+
+
+def flac_pic(mime=b"image/png", desc=b"d", data=b"\x89PNG", lens=(None, None, None)):
+    l0, l1, l2 = [len(x) if y is None else y for x, y in zip((mime, desc, data), lens)]
+    return struct.pack(">II", 3, l0) + mime + struct.pack(">I", l1) + desc + struct.pack(">IIIII", 1, 1, 24, 0, l2) + data
+
+
+def flac_cue(ntracks=2, nidx=(1, 2), cut=None, num=None):
+    d = b"1234567890123".ljust(128, b"\0") + struct.pack(">QB", 88200, 0x80) + b"\0" * 258 + bytes([ntracks if num is None else num])
+    for t in range(ntracks):
+        n = nidx[t % len(nidx)]
+        d += struct.pack(">QB12sB", t * 588, t + 1, b"ISRC", 0) + b"\0" * 13 + bytes([n])
+        d += b"".join(struct.pack(">QB", k * 10, k) + b"\0" * 3 for k in range(n))
+    return d if cut is None else d[:cut]
+
+
+def flac_file(blocks, magic=b"fLaC", audio=b"\xff\xf8" + b"\0" * 30):
+    out = magic
+    for k, (code, body) in enumerate(blocks):
+        out += flac_block(code, body, k == len(blocks) - 1)
+    return out + audio
+
+
+def flac_sweep(samples):
+    for k, name in enumerate(sorted(n for n in samples if n.endswith(".flac"))):
+        s = samples[name][:1500]
+        yield from field_sweep(s, range(0, 60 if k % 2 == 0 else 12), widths=(1, 4))
+        yield from truncations(s, 120 if k % 2 == 0 else 50)
+    si, vc, seek, pad = (0, flac_si()), (4, flac_vc()), (3, b"\0" * 36), (1, b"\0" * 10)
+    yield flac_file([si, vc, seek, (5, flac_cue()), (6, flac_pic()), pad])
+    # block order, missing / repeated blocks, unknown codes
+    for blocks in ([si], [vc], [], [vc, si], [si, si], [si, vc, vc], [si, seek, seek], [si, (5, flac_cue()), (5, flac_cue())], [pad, si], [si, (6, flac_pic()), (6, flac_pic())],
+                   [(2, b"appl"), si], [si, (7, b"x")], [si, (126, b"xy")], [si, (127, b"")]):
+        yield flac_file(blocks)
+        yield flac_file(blocks, audio=b"")
+    for code in range(0, 128):
+        yield flac_file([si, (code, b"\0" * 40)])
+    # the size field: shorter / longer than the content, past the end; is_last on every block
+    for sz in (0, 1, 17, 33, 34, 35, 100, 0xFFFF, 0xFFFFFF):
+        for code in (0, 1, 3, 4, 5, 6, 9):
+            body = {0: flac_si(), 4: flac_vc(), 5: flac_cue(), 6: flac_pic()}.get(code, b"\0" * 40)
+            yield b"fLaC" + flac_block(code, body, False, sz) + flac_block(0, flac_si(), True) + b"\0" * 50
+            yield b"fLaC" + flac_block(0, flac_si(), False) + flac_block(code, body, True, sz) + b"\0" * 50
+    for k in range(0, 4):
+        yield b"fLaC" + flac_block(0, flac_si(), k == 0) + flac_block(4, flac_vc(), k == 1) + flac_block(1, b"\0" * 8, k == 2) + flac_block(3, b"\0" * 18, True) + b"\xff\xf8"
+    # STREAMINFO fields
+    for rate in (0, 1, 15, 16, 44100, 2 ** 20 - 1):
+        for ch in (1, 8):
+            for bps in (1, 16, 17, 32):
+                for total in (0, 1, 2 ** 35, 2 ** 36 - 1):
+                    yield flac_file([(0, flac_si(rate, ch, bps, total)), pad])
+    for cut in range(0, 35):
+        yield flac_file([(0, flac_si()[:cut]), vc])
+    # Vorbis comment: counts / lengths beyond the data (the block size is not trusted)
+    for cnt in (0, 1, 3, 4, 5, 255, 2 ** 16, 2 ** 32 - 1):
+        yield flac_file([si, (4, flac_vc(count=cnt)), pad])
+    for vl in (0, 2, 3, 4, 100, 2 ** 31, 2 ** 32 - 1):
+        yield flac_file([si, (4, flac_vc(vlen=vl)), pad])
+    for ln in (0, 6, 7, 8, 100, 2 ** 31, 2 ** 32 - 1):
+        yield flac_file([si, (4, flac_vc(comments=[(ln, b"TITLE=x"), b"a=b"])), pad])
+    full = flac_file([si, vc], audio=b"")
+    for k in range(len(full) + 1):
+        yield full[:k]
+    # picture lengths, cue sheet counts
+    for v in (0, 1, 8, 9, 10, 100, 2 ** 24, 2 ** 32 - 1):
+        for k in range(3):
+            lens = [None, None, None]
+            lens[k] = v
+            yield flac_file([si, (6, flac_pic(lens=tuple(lens))), pad])
+    full = flac_file([si, (6, flac_pic())], audio=b"")
+    for k in range(len(full) - 50, len(full) + 1):
+        yield full[:k]
+    for nt in (0, 1, 2, 5):
+        for ni in ((0,), (1,), (3, 0), (255,)):
+            yield flac_file([si, (5, flac_cue(nt, ni))])
+            yield flac_file([si, (5, flac_cue(nt, ni, num=nt + 1))])
+            yield flac_file([si, (5, flac_cue(nt, ni, num=255))])
+    c = flac_cue(2, (2,))
+    for cut in list(range(380, 400)) + list(range(len(c) - 40, len(c) + 1)):
+        yield flac_file([si, (5, c[:cut])])
+    for n in (0, 17, 18, 19, 36, 180):
+        yield flac_file([si, (3, b"\x01" * n)])
+    # an ID3v2 tag in front
+    for size in (0, 1, 10, 127, 128, 300, 0x0FFFFFFF):
+        bp = bytes(((size >> sh) & 0x7F) for sh in (21, 14, 7, 0))
+        rest = flac_file([si, vc])
+        for body in (b"\0" * min(size, 400) + rest, rest):
+            yield b"ID3\x04\x00\x00" + bp + body
+            yield b"ID3\x04\x00\x00" + bytes(b | 0x80 for b in bp) + body
+    for k in range(0, 16):
+        yield (b"ID3\x04\x00\x00\x00\x00\x00\x02" + b"ab" + flac_file([si]))[:k]
+    for magic in (b"fLaC", b"flac", b"fLa", b"OggS", b"ID3", b""):
+        yield flac_file([si], magic=magic)
+
+
+FLAC_SEEDS = [flac_file([(0, flac_si()), (4, flac_vc()), (3, b"\0" * 36), (5, flac_cue()), (6, flac_pic()), (1, b"\0" * 20)]),
+              flac_file([(0, flac_si(96000, 6, 24, 2 ** 33)), (2, b"ABCDdata"), (4, flac_vc(comments=[b"ARTIST=a", b"ARTIST=b"])), (1, b"")]),
+              b"ID3\x03\x00\x00\x00\x00\x00\x0a" + b"\0" * 10 + flac_file([(0, flac_si()), (1, b"\0" * 4)])]
+
+
 # ------------------------------------------------------------------------------------------- registry
 LOADERS = {
     "Musepack": dict(impl=mpc_impl, canon=mpc_canon, expect=mpc_expect, sweep=mpc_sweep,
@@ -985,6 +1475,22 @@ LOADERS = {
                  own=lambda n: n.endswith(".aif"), seeds=AIFF_SEEDS, max_len=1024,
                  mirrors="aiff.AIFF.load without the ID3 parse: _IFFID3._pre_load_header, AIFFInfo.__init__, read_float, AIFFFile / IffFile.__init__, "
                          "IffChunk.parse / __init__ / read, AIFFFormChunk.__init__ + init_container, IffContainerChunkMixin.subchunks / __getitem__"),
+    "WAVE": dict(impl=wave_impl, canon=wave_canon, expect=wave_expect, sweep=wave_sweep, coq=("Parse_wave", "wave_load", "wave_id"), cmd="c04_load_wave",
+                 own=lambda n: n.endswith(".wav"), seeds=WAVE_SEEDS, max_len=1024,
+                 mirrors="wave.WAVE.load without the ID3 parse: WaveStreamInfo.__init__, _WaveID3._pre_load_header, _WaveFile.__init__ (ID3 -> id3 renaming), RiffFile / "
+                         "IffFile.__init__, RiffChunk.parse (IffChunk.parse / __init__ / read), RiffListChunk.__init__ + init_container, subchunks (cache) / __getitem__"),
+    "DSDIFF": dict(impl=dsdiff_impl, canon=dsdiff_canon, expect=dsdiff_expect, sweep=dsdiff_sweep, coq=("Parse_dsdiff", "dsdiff_load", "dsdiff_id"), cmd="c04_load_dsdiff",
+                   own=lambda n: n.endswith(".dff"), seeds=DSDIFF_SEEDS, max_len=1024,
+                   mirrors="dsdiff.DSDIFF.load without the ID3 parse: IffID3._pre_load_header, DSDIFFInfo.__init__ (PROP/SND loop over FS, CHNL, CMPR; DSD and DST/FRTE "
+                           "branches), DSDIFFFile, DSDIFFChunk.parse (12-byte header, 64-bit sizes), DSDIFFListChunk / DSTChunk.__init__ + init_container, subchunks / __getitem__, IffChunk.read"),
+    "AAC": dict(impl=aac_impl, canon=aac_canon, expect=aac_expect, sweep=aac_sweep, coq=("Parse_aac", "aac_load", "aac_id"), cmd="c04_load_aac",
+                own=lambda n: n.endswith(".aac"), seeds=AAC_SEEDS, max_len=2048,
+                mirrors="aac.AACInfo.__init__ (what AAC.load runs): ID3v2 skip, ADIF dispatch, _parse_adif + ProgramConfigElement (BitReaderError mapping), _parse_adts "
+                        "(sync tries / frame loops), _ADTSStream.find_stream / sync / parse_frame / _parse_frame and its properties, over _util.BitReader"),
+    "FLAC": dict(impl=flac_impl, canon=flac_canon, expect=flac_expect, sweep=flac_sweep, coq=("Parse_flac", "flac_load", "flac_id"), cmd="c04_load_flac",
+                 own=lambda n: n.endswith(".flac"), seeds=FLAC_SEEDS, max_len=4096,
+                 mirrors="flac.FLAC.load: StrictFileObject.read, __check_header (ID3 skip), __read_metadata_block (dispatch, _distrust_size, one CueSheet / SeekTable), "
+                         "StreamInfo.load, CueSheet.load, Picture.load, VCFLACDict (VComment.load framing=False, strict reads), the block loop, info / bitrate"),
     "DSF": dict(impl=dsf_impl, canon=dsf_canon, expect=dsf_expect, sweep=dsf_sweep, coq=("Parse_dsf", "dsf_load", "dsf_id"), cmd="c04_load_dsf",
                 own=lambda n: n.endswith(".dsf"), seeds=DSF_SEEDS, max_len=512,
                 mirrors="dsf.DSF.load up to the ID3 header: DSFFile (DSDChunk, FormatChunk, DataChunk .load), _DSFID3._pre_load_header (seek to the "
